@@ -1,7 +1,9 @@
 """C08 — ExponentiatedGradient meets the saddle-point guarantees certified by best_gap_."""
+import hashlib
 import json
 import logging
 import math
+import os
 from fractions import Fraction as F
 
 import numpy as np
@@ -34,6 +36,9 @@ PINNED = {
 }
 PINNED_LOOP = json.loads(r"""{"init": {"theta": "pd.Series(0, lagrangian.constraints.index)", "Qsum": "pd.Series(dtype='float64')", "gaps_EG": "[]", "gaps": "[]", "Qs": "[]", "last_regret_checked": "_REGRET_CHECK_START_T", "last_gap": "np.inf", "self.lambda_vecs_EG_": "pd.DataFrame()", "self.lambda_vecs_LP_": "pd.DataFrame()"}, "lambda_vec": "B * np.exp(theta) / (1 + np.exp(theta).sum())", "lambda_EG": "self.lambda_vecs_EG_.mean(axis=1)", "Qsum": ["Qsum.at[h_idx] = 0.0", "Qsum[h_idx] += 1.0"], "Q_EG": "Qsum / Qsum.sum()", "eta": "self.eta0 / B", "skipLP": "t == 0 or not self.run_linprog_step", "regretDue": "t >= last_regret_checked * _REGRET_CHECK_INCREASE_T", "shrinkDue": "best_gap > last_gap * _SHRINK_REGRET", "shrink": "eta *= _SHRINK_ETA", "theta": "theta += eta * (gamma - self.constraints.bound())", "last_iter": "len(Qs) - 1", "evalBreak": "result.gap() > nu + _PRECISION", "h_value": "h_error + h_gamma.dot(lambda_vec)", "best_h": ["values = self.errors + self.gammas.transpose().dot(lambda_vec)", "best_idx = values.idxmin()", "best_value = values[best_idx]", "best_idx = -1", "best_value = np.inf"]}""")
 PINNED_LP = json.loads(r"""{"c": "np.concatenate((self.errors, [self.B]))", "A_ub": "np.concatenate((self.gammas.sub(self.constraints.bound(), axis=0), -np.ones((n_constraints, 1))), axis=1)", "b_ub": "np.zeros(n_constraints)", "A_eq": "np.concatenate((np.ones((1, n_hs)), np.zeros((1, 1))), axis=1)", "b_eq": "np.ones(1)", "dual_c": "np.concatenate((b_ub, -b_eq))", "dual_A_ub": "np.concatenate((-A_ub.transpose(), A_eq.transpose()), axis=1)", "dual_bounds": "[(None, None) if i == n_constraints else (0, None) for i in range(n_constraints + 1)]", "cache": "self.last_linprog_n_hs == n_hs"}""")
+PINNED_SHA = {"EGGen.lean": "2ac31df88449c15f2f3119914e841d4c389aeff5",
+              "EGLoopGen.lean": "d854df9604bcfe4a0ac4d6a0693ba7e49725b46e",
+              "LinProgGen.lean": "fd41ac5a5f6dad60aee18a7c7aae8b5cb7bed893"}
 _LIFTED = {}
 _RP = {}
 
@@ -77,6 +82,15 @@ def lifted_changes():
             for fn, pinned in (("EGLoopGen.lean", PINNED_LOOP), ("LinProgGen.lean", PINNED_LP)):
                 m = info.get(fn, {})
                 ch += sorted(f"{fn}:{k}" for k in pinned if json.loads(json.dumps(m.get(k))) != pinned[k])
+            # anything else that changed the generated text (e.g. the multiplier list of eval_gap)
+            for fn, sha in PINNED_SHA.items():
+                try:
+                    with open(os.path.join(translate.GEN_DIR, fn), "rb") as f:
+                        cur = hashlib.sha1(f.read()).hexdigest()
+                except OSError:
+                    cur = None
+                if cur != sha and not any(c.startswith(fn + ":") for c in ch):
+                    ch.append(f"{fn}:generated text")
             _LIFTED["v"] = ch
         except translate.Untranslatable as e:
             _LIFTED["v"] = ["untranslatable: " + str(e)[:120]]
@@ -133,33 +147,55 @@ def table_of(case):
 @register
 class CHECK(Check):
     pid = "C08"
-    technique = ("Lean 4 theorems over the Saddle model (Lagrangian, L_low, L_high, gap, project_lambda, best-iterate "
-                 "selection; closed expressions lifted from the source) + compiled-driver recomputation of the TRUE duality "
-                 "gap of every fitted ExponentiatedGradient over the enumerated hypothesis class + exact LP optimum")
-    level_text = ("Theorems (any finite class, all rational inputs): gap <= g, lambda >= 0, Q' feasible => err(Q) <= err(Q') + 2g; "
-                  "violation_j <= (1+2g)/B; L_high is the multiplier player's best response; a gap computed from any candidate "
-                  "set containing a true best response is >= (and, inside the class, =) the true gap; project_lambda keeps "
-                  "lambda.gamma, non-negativity and the L1 bound; best_iter_ is the last iterate within _PRECISION of the "
-                  "minimum and best_gap_ < nu whenever the loop leaves early. Tie: expressions/constants lifted from the "
-                  "Python source into Generated/EGGen.lean; every generated fit is exported (hypothesis table in exact "
-                  "Fractions, weights_, recorded multipliers) to the compiled model, which recomputes the true gap; the two "
-                  "guarantees are checked against an exact simplex optimum (cross-checked with scipy).")
+    technique = ("Lean 4 theorems over (i) the Saddle model (Lagrangian, L_low, L_high, gap, project_lambda, best-iterate selection), "
+                 "(ii) the ExponentiatedGradient MAIN LOOP as a state machine (Model/EGLoop.lean: multipliers, running mean, best_h "
+                 "cache, eval_gap's [1,2,5,10] loop with its break, LP cache, EG-vs-LP choice, break rule, regret check / eta shrink, "
+                 "theta update, returned iterate) and (iii) the two LPs of solve_linprog (Model/LinProg.lean), all written over "
+                 "expressions lifted from the Python source on every run (Generated/EGGen, EGLoopGen, LinProgGen); correspondence = "
+                 "every generated fit is recorded (base-learner answers, DummyClassifier shortcuts, every scipy.linprog call with its "
+                 "arguments and solution) and re-run by the compiled state machine and by an independent exact-Fraction replay; "
+                 "+ compiled-driver recomputation of the TRUE duality gap over the enumerated class + exact LP optimum")
+    level_text = ("Theorems (any finite class, all rational inputs, every run length, ANY oracle answers): gap <= g, lambda >= 0, Q' "
+                  "feasible => err(Q) <= err(Q') + 2g; violation_j <= (1+2g)/B; L_high is the multiplier player's best response; "
+                  "every lambda_t and every running mean lambda_EG is >= 0 with L1 norm < B (from positivity of exp only); Q_EG and "
+                  "weights_ are probability vectors; eta = eta0/B * 0.8^k, non-increasing; at most max_iter iterations, "
+                  "len(gaps) = len(Qs) = t, best_iter_ <= last_iter_, early stop => best_gap_ < nu; best_h's store is append-only, "
+                  "the returned index is a stored argmin within _PRECISION of the oracle's answer; eval_gap's reported gap is <= the "
+                  "true gap for ANY class-member oracle and >= true gap - _PRECISION when the ONE call at mul = 1 is exact (slack "
+                  "shown necessary); the two guarantees for the OUTPUT of the loop; solve_linprog's primal feasibility = "
+                  "distribution + slack >= max violation, objective = err + B t (= L_high at the optimal slack), dual feasibility = "
+                  "(lambda >= 0, |lambda|_1 <= B, mu <= L(h_i, lambda) for all stored i), weak duality for the generated pair, "
+                  "gap 0 => both optimal. Tie: expressions/constants/matrix constructions lifted from the source; every fit replayed "
+                  "(lambda_vecs_EG_ column by column, lambda_vecs_LP_, best_iter_, last_iter_, best_gap_, weights_, n_oracle_calls_, "
+                  "stored classifiers, LP matrices entry by entry, LP solutions' feasibility residuals/objectives/duality certificate); "
+                  "the two guarantees are checked against an exact simplex optimum (cross-checked with scipy).")
     design_ref = "DESIGN.md section 4, C08"
     quick_cases = 240
     thorough_cases = 2000
-    quick_budget_s = 110
+    quick_budget_s = 130
     thorough_budget_s = 1300
     rule = ("binary data sets of 6..16 rows, one feature with 2..5 distinct values (hypothesis class = all 2^k labelings or the "
             "2k threshold labelings, enumerated), 2..3 groups, DP/TPR/FPR/EO/ERP x {difference bound in {0,1/100,1/20,1/10,1/4}, "
             "ratio bound in {1/2,4/5,1} with the same slacks}, eps in {1/4,1/10,1/20,1/50,1/100}, max_iter 1..50, nu None or "
             "given, eta0 in {1/2,1,2,4}, run_linprog_step on/off, DataFrame/ndarray/list containers; a fresh Moment per fit; "
             "distinct = distinct case; non-trivial = more than one predictor or positive gap or early stop")
-    explanation = ("theorems over Model/Saddle.lean + Generated/EGGen.lean; the true gap of (weights_, recorded multiplier) is "
-                   "recomputed exactly by the driver for the EG-average and the LP multiplier of the returned iteration "
-                   "(which of the two was used is not observable through the public attributes: the certificate clause is "
-                   "checked against the smaller of the two true gaps, and best_gap_ must coincide with one of them)")
-    trusted = ("scipy.optimize.linprog (HiGHS) inside solve_linprog; tolerance 1e-7 (relative to max(1, gap))",
-               "harness/learners.py ExactLearner is the exact cost-sensitive learner the property is conditional on",
+    explanation = ("theorems over Model/Saddle.lean, Model/EGLoop.lean, Model/LinProg.lean + Generated/EGGen, EGLoopGen, LinProgGen; the "
+                   "true gap of (weights_, recorded multiplier) is recomputed exactly by the driver for the EG-average and the LP "
+                   "multiplier of the returned iteration; the loop replay additionally determines WHICH of the two was used "
+                   "(evidence tag loop:returned=EG|LP-iterate).  Loop-level comparison tolerance: 1e-9*max(1,B) on multipliers and "
+                   "gaps, 1e-9 on weights, 1e-12 on LP matrix entries, 1e-7*max(1,B) on LP residuals / primal-dual objective equality.  "
+                   "A branch decision of the float implementation whose two sides differ by < 1e-11 (relative) in exact arithmetic "
+                   "(idxmin ties between stored classifiers at uniform multipliers, gap_EG = gap_LP = 0, ...) may legitimately go the "
+                   "other way: such runs are tagged loop:near-tie and a loop-level divergence there is not reported")
+    trusted = ("scipy.optimize.linprog (HiGHS) inside solve_linprog: its answers are inputs (Oracles.lp) of the loop model; their "
+               "feasibility and optimality are re-checked per call through the model's residuals and the weak-duality certificate; "
+               "tolerance 1e-7 (relative to max(1, gap))",
+               "np.exp: a parameter of the loop model (only positivity is used by the theorems); the driver receives math.exp of the "
+               "float nearest to each exact theta as an exact rational",
+               "harness/learners.py ExactLearner is the exact cost-sensitive learner the property is conditional on; its answers "
+               "(and sklearn DummyClassifier's) are the Oracles.h inputs of the loop model",
+               "harness/egreplay.py: recording wrappers around DummyClassifier.fit and scipy.optimize.linprog (active only while "
+               "fit runs, no source hook) and the exact-Fraction replay that supplies the exp table",
                "harness/redoracle.py: exact two-phase simplex (Bland) for the constrained optimum, cross-checked with scipy")
     assumptions = ("both labels and at least two groups occur; both constant classifiers belong to the class, so the "
                    "constrained problem is feasible", "objective=None (ErrorRate with unit costs), so errors lie in [0,1]")
